@@ -11,6 +11,8 @@ WORLDS = {
     "exec": {},
     "mod": {},
     "cache": {},
+    "cas": {"requires": ["github.com/anishathalye/porcupine@v1.3.0"],
+            "shims": {"kv/zz_verif_sim.go": "shims/kv_sim.go", "kv/consul/zz_verif_sim.go": "shims/consul_sim.go", "kv/memberlist/zz_verif_sim.go": "shims/memberlist_sim.go"}},
     "svc": {"l2": ["services/basic_service.go", "services/manager.go", "services/failure_watcher.go"]},
 }
 
@@ -75,6 +77,18 @@ PROPS["C19"] = {
     "level_text": "seeded exploration of operation / clock-advance / skew / fault histories of every wrapper stacking order against a map-with-expiry reference model; sampling, not proof",
     "level_note": "trusted: simulator engine and the reference model written from the statement; no concurrency is involved (sequential client), the simulated dimensions are time, skew, eviction pressure and backend faults",
     "design_ref": "DESIGN.md section 5 C19",
+}
+
+PROPS["C07"] = {
+    "world": "cas", "level": "exploration", "quick_s": 20, "thorough_s": 480,
+    "rule": "one evaluation = one concurrent history of 2..16 callers x 1..12 CAS calls on 1..2 keys against one backend (consul in-memory / etcd mock / gossip store on one node) behind a drawn stack of prefix / metrics / multi(mirroring) wrappers; every invocation of f (between the backend's read and its conditional write) and, for consul, every low-level Get/CAS is a scheduling point; low-level errors are injected before commits; the '-starve' scenarios let an aggressor commit between every read and write of a victim; non-trivial = some CAS was retried because another commit landed in between; distinct = distinct released-task sequence hash among non-trivial runs",
+    "real": ["kv/consul.Client + mockKV", "kv/etcd.Client + in-process mock", "kv/memberlist.KV + Client (one node, no transport)", "kv.PrefixClient", "kv metrics wrapper", "kv.MultiClient with mirroring", "ring.Desc codec and Merge (register values are ring descriptors)"],
+    "stub": ["callers and their functions", "consul low-level fault layer", "hashicorp/memberlist transport (not needed on one node)"],
+    "assumptions": _ASSUME_COMMON + ["errors are injected only before a commit: an error after a commit makes every client retry re-apply f (at-least-once by construction), which is not what the statement is about", "for the multi wrapper only the primary path is checked (mirroring is best effort)", "porcupine Unknown (timeout) is inconclusive and counted, never reported"],
+    "level_text": "seeded exploration of read/modify/write interleavings of concurrent CAS callers on every backend and wrapper stack; oracle = chain of successful calls + porcupine linearizability of the recorded history against a register model; sampling, not proof",
+    "level_note": "trusted: simulator engine, porcupine v1.3.0, the register model; values are made unique per write by a marker so every read is attributable",
+    "design_ref": "DESIGN.md section 5 C07",
+    "technique": "deterministic simulation (seeded schedules at CAS read/modify/write points, pre-commit fault injection) + porcupine linearizability check of recorded histories",
 }
 
 HOOK_COMMITS = []
